@@ -100,6 +100,13 @@ def rand_call(rng, pool):
             hx = rng.choice(keys_)
             fn_ = rng.choice(["priv_from_hex", "pub_from_hex", "priv_from_bytes", "pub_from_bytes"])
             return ("key", [fn_, hx if fn_.endswith("hex") else bytes.fromhex(hx)])
+    if 0.06 <= r < 0.12:
+        # the single-signature primitives on payloads held in mutable buffers (bytearray): the buffer is the caller's and stays as it is
+        k_ = gen.key(rng.randrange(4))
+        data = pool.setdefault("buffers", [bytearray(b"payload-%d" % j * 3) for j in range(3)])[rng.randrange(3)]
+        if rng.random() < 0.5:
+            return ("vgpg", [gen.gpg_entry(k_, bytes(data), gen.GPG_HDR_TYPICAL), k_.hex, data])
+        return ("vsig", [k_.sign(bytes(data)).hex(), proto.KeyObj(False, k_.pub), data])
     if r < 0.35:
         env, auth, gpg = rng.choice(pool["envs"])
         return ("vsignable", [env, auth, rng.choice([1, 1, 2, 3]), gpg])
